@@ -36,9 +36,12 @@ pub struct Input {
     /// retained glyphs); the object-store size is measured at run time.
     pub declared_hashed: usize,
     pub make: MakeFn,
+    /// optional: what the compiler did with this input, read back from the
+    /// reference output (e.g. which lookups were promoted); evidence only
+    pub describe: Option<fn(&[u8]) -> String>,
 }
 
-fn g(i: usize) -> GlyphId16 {
+pub(crate) fn g(i: usize) -> GlyphId16 {
     GlyphId16::new(i as u16)
 }
 
@@ -48,7 +51,7 @@ fn f2(v: f64) -> F2Dot14 {
 
 // ------------------------------------------------------------ variation regions
 
-const AXES: u16 = 3;
+pub(crate) const AXES: u16 = 3;
 
 /// A pool of `n` distinct regions over AXES axes.
 fn region_pool(rng: &mut Rng, n: usize) -> Vec<VariationRegion> {
@@ -126,7 +129,7 @@ fn anchor(rng: &mut Rng, pool: Option<&[VariationRegion]>) -> AnchorBuilder {
 
 // ------------------------------------------------------------ layout scaffolding
 
-fn scripts_features(tag: &[u8; 4], n_lookups: usize) -> (ScriptList, FeatureList) {
+pub(crate) fn scripts_features(tag: &[u8; 4], n_lookups: usize) -> (ScriptList, FeatureList) {
     // several features/scripts sharing lookups, so that the object store
     // dedups identical LangSys / Feature tables
     let mut frecs = vec![];
@@ -617,7 +620,7 @@ fn rebuild_font(data: &[u8], order_seed: u64) -> Result<Vec<u8>, String> {
 
 // ------------------------------------------------------------ klippa
 
-fn subset(data: &[u8], plan_kind: usize) -> Result<Vec<u8>, String> {
+pub(crate) fn subset(data: &[u8], plan_kind: usize) -> Result<Vec<u8>, String> {
     use klippa::{subset_font, Plan, SubsetFlags, DEFAULT_LAYOUT_FEATURES};
     let font = FontRef::new(data).map_err(|e| format!("{e}"))?;
     let mut gids: IntSet<GlyphId> = IntSet::empty();
@@ -661,12 +664,13 @@ fn subset(data: &[u8], plan_kind: usize) -> Result<Vec<u8>, String> {
 
 // ------------------------------------------------------------ the list
 
-fn mk(name: impl Into<String>, kind: &'static str, declared: usize, f: impl Fn() -> Result<Vec<u8>, String> + Send + Sync + 'static) -> Input {
+pub(crate) fn mk(name: impl Into<String>, kind: &'static str, declared: usize, f: impl Fn() -> Result<Vec<u8>, String> + Send + Sync + 'static) -> Input {
     Input {
         name: name.into(),
         kind,
         declared_hashed: declared,
         make: Arc::new(f),
+        describe: None,
     }
 }
 
@@ -823,5 +827,7 @@ pub fn canonical_inputs(seed: u64, thorough: bool) -> Vec<Input> {
             v.push(mk(format!("klippa-subset:{}:plan{}", f.name, plan), "klippa", 120, move || subset(&data, plan)));
         }
     }
+    // ---- deliberate ties (see ties.rs)
+    v.extend(crate::ties::tie_inputs(seed));
     v
 }
